@@ -430,6 +430,32 @@ def j10(led, rid, ctx):
                   "nogood (e.g. a blocking clause) is never enforced" % show(e)[:80])
 
 
+def j15(led, rid, ctx):
+    """the windowed moving average behind the restart strategy keeps `window_size` equal to the
+    interval it was last adapted to: on every path of `adapt` that changes the window the field is
+    stored (a stale size makes the next shrink pop more values than are stored — a panic in
+    notify_restart under the Luby sequence)"""
+    lib = ctx.lib
+    fs = [f for f in lib.fns.values() if f.name == "adapt" and "windowed_moving_average" in f.file and f.kind != "Closure"]
+    if len(fs) != 1:
+        raise AnchorMissing("WindowedMovingAverage::adapt")
+    f = fs[0]
+    cfg = f.cfg
+    stores = []
+    for b in f.blocks:
+        for st in b["stmts"]:
+            if st["s"] == "assign" and [x.get("name") for x in st["dst"]["proj"] if "field" in x][-1:] == ["window_size"]:
+                stores.append(b["id"])
+    pops = [c.bb for c in f.calls if c.name in ("pop_front", "pop_back", "truncate", "drain")]
+    led.check(bool(stores) and bool(pops), rid, "adapt:anchors", f.span, "", "adapt no longer stores window_size / removes values")
+    # every removal of values is followed by the store on every way out
+    bad = [bb for bb in pops if cfg.reaches(bb, cfg.returns, avoid=stores, strict=True)]
+    led.check(not bad, rid, "adapt:shrink-stores-window_size", f.span, "no return is reachable from a removal without the store",
+              "WindowedMovingAverage::adapt removes values from the window but can return without storing the new "
+              "window_size: the next shrink computes the number of removals from a stale size and pops from an "
+              "empty queue (panic in the restart strategy under the Luby sequence)")
+
+
 def j14(led, rid, ctx):
     """WHO-MAY-CALL + ORDER: learned nogoods are deleted only at the very start of
     NogoodPropagator::propagate — before any watcher is looked at and, in particular, never between
@@ -560,6 +586,7 @@ def run(ctx, led):
     run_rule(led, "J12", "conflict resolution returns in the Solving state also when nothing was learned (shared with C02-U23)", _C02.u23, ctx)
     from . import kernel as _kernel
     _kernel.run_bundle(led, ctx, "J")
+    run_rule(led, "J15", "the restart strategy's moving average stores window_size whenever it shrinks the window", j15, ctx)
     run_rule(led, "J14", "WHO-MAY-CALL/ORDER: the learned-nogood database is reduced only at the start of propagate, never before an asserting predicate is posted", j14, ctx)
     run_rule(led, "J13", "watcher removal selects exactly the watcher with that nogood id and right-hand side", j13, ctx)
     from . import kernel as _kernel4
